@@ -47,8 +47,24 @@ def _one(args):
         shutil.rmtree(tmp, ignore_errors=True)
 
 
+def leaf_guards(tier, seed):
+    """the proved part: contracts on the generator's validation functions (E1)"""
+    from checks.props import PROPS
+    from checks.common import PropertyCheck
+    pc = PropertyCheck("C17", PROPS["C17L"], tier, seed)
+    rc = pc.run(write_evidence=False, label="leaf guards (proved)")
+    return rc, {"obligations": len(getattr(pc, "obls", [])), "discharged": getattr(pc, "discharged", 0),
+                "functions_under_contract": [f["function"] for f in getattr(pc, "functions", [])],
+                "functions_outside_fragment": getattr(pc, "outside", []),
+                "trusted": ["FieldCodeGenerator._get_type (type resolution: pure, result kind/boundedness as ghost fields)",
+                            "try_parse_int (CPython int(str): uninterpreted graph)"]}
+
+
 def run(tier, seed):
     t0 = time.time()
+    lrc, leaf = leaf_guards(tier, seed)
+    if lrc == 3:
+        return 3
     tasks = []
     oracle_disagreements = []
     # (a) the explicit catalogue at every position
@@ -128,7 +144,8 @@ def run(tier, seed):
                                "distinct = distinct (rule, position) pairs",
                        "samples": samples or [{"note": "none"}], "catalogue_cases": n_catalogue,
                        "enumerated_ill_formed": len(tasks) - n_catalogue, "rules_exercised": len(rules),
-                       "known_findings_reported": known_lines, "bounded": True},
+                       "known_findings_reported": known_lines, "bounded": True,
+                       "leaf_guards_proved": leaf},
           "assumptions": ["bounded stand-in for 'wherever it occurs' (positions enumerated, not all nestings); xmlsem.wellformed "
                           "is the oracle of ill-formedness (trusted specification)"],
           "wall_s": round(time.time() - t0, 2), "violations": len(failures)}
@@ -148,7 +165,7 @@ def run(tier, seed):
             print(f"  accepted although ill-formed: rule {f['rule']} at {f['where']}: {json.dumps(f['docs'])[:300]}")
             print(f"VIOLATION property=C17 replay={path}")
         return 1
-    return 0
+    return lrc
 
 
 def replay(rp):
